@@ -218,6 +218,16 @@ class Sched:
         finally:
             p.low_priority = False
 
+    def long_sleep(self):
+        """Time passes for everybody: every other process - a stalled one included - runs until blocked before the sleeper goes on (a peer is
+        slow, not dead: after finitely many time-outs of a timed wait its message is there)."""
+        p = self.current
+        p.low_priority = True
+        try:
+            self.yield_()
+        finally:
+            p.low_priority = False
+
     def run(self, timeout: float = 120.0):
         if not self.procs:
             return
@@ -1106,7 +1116,7 @@ class World:
             if n < 2:
                 self.sched.yield_()
             else:
-                self.sched.sleep()
+                self.sched.long_sleep()
             for _, e in ends:
                 e.polls = 0 if e.ready() else getattr(e, 'polls', 0) + 1
         return ([s_ for s_, e in ends if e.ready()], list(wr), [])
